@@ -221,6 +221,51 @@ def traced_configurations(rng, thorough):
     if thorough:
         for c in out:
             c["cap"] = c["cap"] * 8
+    # deeply nested recursive data in both threads (two linked lists): call-level switch points in the recursive functions
+    node = {"type": "record", "name": "Node", "fields": [{"name": "v", "type": "long"}, {"name": "next", "type": ["null", "Node"]}]}
+    ndef = {"Node": node}
+
+    def chain(n, base, wire):
+        cur = None
+        for i in range(n):
+            nxt = (("$branch", 0, None) if cur is None else ("$branch", 1, cur)) if wire else cur
+            cur = {"v": base + i, "next": nxt}
+        return cur
+    depth = 120
+    setup_n = [{"api": "parse_schema", "schema": node, "$out": "N"}]
+    deep = dict(mcalls=None, cap=None, fresh_setup=False, isolate=True, family="preempt", samples=16 if not thorough else 60,
+                random=2 if not thorough else 10, recursion_limit=20000,
+                sig="C18:deeply-nested-data:concurrent-operations:result-differs-from-sequential")
+    out.append(dict(deep, name="deep-read-x2", setup=setup_n, trace_calls=[["_read_py.py", "read_data"]],
+                    threads=[[{"api": "schemaless_reader", "schema": {"$slot": "N"}, "data": G.encode(node, chain(depth, t * 1000, True), ndef)}]
+                             for t in range(2)]))
+    out.append(dict(deep, name="deep-write-x2", setup=setup_n, trace_calls=[["_write_py.py", "write_data"]],
+                    threads=[[{"api": "schemaless_writer", "schema": {"$slot": "N"}, "record": chain(40, t * 1000, False), "kw": {}}]
+                             for t in range(2)]))         # (writing a union validates the rest of the chain at every node: quadratic)
+    out.append(dict(deep, name="deep-validate-vs-read", setup=setup_n,
+                    trace_calls=[["_validation_py.py", "_validate"], ["_read_py.py", "read_data"]],
+                    threads=[[{"api": "validate", "schema": {"$slot": "N"}, "datum": chain(depth, 5, False), "kw": {}}],
+                             [{"api": "schemaless_reader", "schema": {"$slot": "N"}, "data": G.encode(node, chain(depth, 7, True), ndef)}]]))
+    # a large schema registry: one thread validates a few hundred DISTINCT record types while the other validates one it has
+    # validated before; line-level points in the record validator
+    nrec = 300
+    big = {"type": "record", "name": "Big", "fields": [
+        {"name": "f%d" % i, "type": {"type": "record", "name": "R%d" % i, "fields": [{"name": "v", "type": "int"}]}} for i in range(nrec)]}
+    small = {"type": "record", "name": "Small", "namespace": "reg", "fields": [{"name": "x", "type": "long"},
+                                                                               {"name": "s", "type": {"type": "record", "name": "Sub", "fields": [{"name": "y", "type": "string"}]}}]}
+    bigrec = {"f%d" % i: {"v": i} for i in range(nrec)}
+    smallrec = {"x": 1, "s": {"y": "z"}}
+    reg_setup = [{"api": "parse_schema", "schema": big, "$out": "B"}, {"api": "parse_schema", "schema": small, "$out": "S"},
+                 {"api": "validate", "schema": {"$slot": "S"}, "datum": smallrec, "kw": {}}]           # Small has been validated before
+    reg = dict(mcalls=None, cap=None, fresh_setup=True, isolate=True, family="preempt", preempt_only=[0], samples=1000, random=0,
+               trace=[["_validation_py.py", "_validate_record"], ["_validation_py.py", "_record_fullname"]],
+               sig="C18:validate:many-distinct-record-types-in-another-thread:result-differs-from-sequential")
+    out.append(dict(reg, name="registry-validate-vs-validate", setup=reg_setup,
+                    threads=[[{"api": "validate", "schema": {"$slot": "S"}, "datum": smallrec, "kw": {}}],
+                             [{"api": "validate", "schema": {"$slot": "B"}, "datum": bigrec, "kw": {}}]]))
+    out.append(dict(reg, name="registry-writer-validator-vs-validate_many", setup=reg_setup,
+                    threads=[[{"api": "writer", "schema": {"$slot": "S"}, "records": [smallrec, smallrec], "kw": {"validator": True}}],
+                             [{"api": "validate_many", "schema": {"$slot": "B"}, "records": [bigrec], "kw": {}}]]))
     return out
 
 
@@ -338,7 +383,7 @@ def footprint(ctx, scratch, variant):
     model = dict(zip(idx, core.coq_eval(exprs, IMPORTS, ctx.workdir, tag="c18fp", shard=300)))
     seen = {}
     for k, (c, r) in enumerate(zip(calls, recs)):
-        if c["api"] == "new_dict":
+        if c["api"] in ("new_dict", "mutate"):
             continue
         tags = set()
         others = []
@@ -373,12 +418,22 @@ def forced(ctx, scratch, variant, thorough):
 
     def one(arg):
         cfg, seed = arg
+        t_cfg = time.time()
+        try:
+            return one_(cfg, seed)
+        finally:
+            nm = cfg["name"] if isinstance(cfg, dict) else cfg[0]
+            if summary.get(nm) is not None:
+                summary[nm]["seconds"] = round(time.time() - t_cfg, 1)
+
+    def one_(cfg, seed):
         rng = _random.Random(seed)          # per configuration, drawn from ctx.rng below: configurations run in parallel
         if isinstance(cfg, tuple):
             cfg = dict(zip(("name", "setup", "threads", "mcalls", "cap"), cfg), fresh_setup=False, sig=None)
         name, setup, threads, mcalls, cap = cfg["name"], cfg["setup"], cfg["threads"], cfg["mcalls"], cfg["cap"]
         fresh_setup = cfg["fresh_setup"]
-        extra = dict(fresh_setup=fresh_setup, trace=cfg.get("trace", []), isolate=cfg.get("isolate", False))
+        extra = dict(fresh_setup=fresh_setup, trace=cfg.get("trace", []), isolate=cfg.get("isolate", False),
+                     trace_calls=cfg.get("trace_calls", []), recursion_limit=cfg.get("recursion_limit"))
         tagn = re.sub(r"\W", "", name)
         cnt = run_job(dict(mode="count", setup=setup, threads=threads, **extra), scratch, "cnt" + tagn)
         counts = [len(p) for p in cnt["points"]]
@@ -408,7 +463,18 @@ def forced(ctx, scratch, variant, thorough):
             return
         flags.append(name)
         total = n_merges(counts)
-        if cap is None or total <= cap:
+        if cfg.get("family") == "preempt":
+            # thread i takes k of its steps, every other thread runs to completion, thread i finishes (negative entry
+            # -(j+1): thread j runs on to its end without stopping at points) - for every sampled k, plus a few random merges
+            scheds = []
+            for i in cfg.get("preempt_only", range(len(counts))):
+                step = max(1, counts[i] // cfg.get("samples", 24))
+                for k in sorted(set(list(range(0, counts[i] + 1, step)) + [counts[i]])):
+                    scheds.append([i] * k + [-(j + 1) for j in range(len(counts)) if j != i] + [-(i + 1)])
+            for _ in range(cfg.get("random", 0)):
+                scheds.append(random_merge(rng, counts))
+            summary[name]["exhaustive"] = False
+        elif cap is None or total <= cap:
             scheds = list(merges(counts))
             summary[name]["exhaustive"] = True
         else:
@@ -527,7 +593,7 @@ def stress(ctx, scratch, thorough, secs):
             c = _rename_slots(c, "h%d_" % nh)
             if c["api"] == "new_dict" or "$out" in c or "named_schemas" in c:
                 setup.append(c)
-            elif c["api"] != "generate_many":
+            elif c["api"] not in ("generate_many", "mutate", "writer_write", "writer_flush", "reader_consume"):
                 pool.append(c)
     # decimals of different precisions on ONE shared parsed schema in every thread
     setup.append({"api": "parse_schema", "schema": SHARED, "$out": "SHARED"})
@@ -611,7 +677,8 @@ def replay(ctx, rep):
     try:
         if job["mode"] == "forced":
             cnt = run_job(dict(mode="count", setup=job["setup"], threads=job["threads"], fresh_setup=job.get("fresh_setup"),
-                               trace=job.get("trace", []), isolate=job.get("isolate", False)), scratch, "cnt")
+                               trace=job.get("trace", []), isolate=job.get("isolate", False), trace_calls=job.get("trace_calls", []),
+                               recursion_limit=job.get("recursion_limit")), scratch, "cnt")
             seq = [r[0] for r in cnt["sequential"]]
             out = run_job(job, scratch, "rp")["runs"][0]
             got = [x[0] for x in out["results"]]
